@@ -53,6 +53,7 @@ var (
 	noR4     bool
 	noR7     bool
 	noR8     bool
+	r8All    bool
 	yieldPkg = map[string]bool{}
 )
 
@@ -68,6 +69,7 @@ func main() {
 	flag.BoolVar(&noR4, "no-r4", false, "skip soft yields")
 	flag.BoolVar(&noR7, "no-r7", false, "skip the select rewrite")
 	flag.BoolVar(&noR8, "no-r8", false, "skip the map access tracking rewrite")
+	flag.BoolVar(&r8All, "r8-all", false, "track every map access, not only maps held in struct fields and package-level variables")
 	flag.Parse()
 	pats := flag.Args()
 	if len(pats) == 0 {
@@ -412,6 +414,13 @@ func rewriteFile(fset *token.FileSet, p *packages.Package, f *ast.File, name str
 			}
 			if _, isMap := tv.Type.Underlying().(*types.Map); !isMap {
 				return false
+			}
+			if r8All {
+				switch e.(type) {
+				case *ast.CompositeLit, *ast.CallExpr:
+					return false
+				}
+				return true
 			}
 			switch x := e.(type) {
 			case *ast.SelectorExpr:
